@@ -364,19 +364,22 @@ static void judge(Result &R, Counters &C, const char *pred, const char *fam, con
 
 // ---------------------------------------------------------------------------
 // alphabet families: every assignment of alphabet values to the 12 / 15
-// coordinates. Results are stored per input; because the input set is closed
-// under permutations of the points, result[perm(input)] is the predicate
-// value of the permuted call and is compared with sign(perm) * result[input].
+// coordinates, i.e. every ordered tuple of 4 / 5 points out of the A^3 points
+// of the alphabet. The ordered tuples are visited as "multiset of points x
+// all its distinct arrangements": the oracle determinant is evaluated once
+// for the sorted arrangement, every arrangement (= one ordered input, each
+// exactly once) is given to both real predicates and must return
+// sign(arrangement) * sign(det) - for repeated points det = 0. This is the
+// comparison of every input with the exact sign and the odd/even permutation
+// check in one (the determinant is alternating); the oracle itself is
+// re-evaluated directly on the reversed arrangement of every multiset and,
+// on every 7th multiset, in the second formulation and in unbounded integers.
 // ---------------------------------------------------------------------------
 static void run_alphabet(Result &R, Counters &total, const char *pred, int npts,
                          const std::vector< double > &alpha, long seed, bool &complete) {
   const int A = (int)alpha.size();
   const int n = 3 * npts;
-  uint64_t N = 1;
-  for (int i = 0; i < n; ++i)
-    N *= A;
-  const uint64_t P = (uint64_t)A * A * A; // codes of one point
-  std::vector< signed char > tab_ex(N, 99), tab_ad(N, 99);
+  const int P = A * A * A; // points of the alphabet
   std::string fam = fmt("alphabet%d{", A);
   for (int i = 0; i < A; ++i) {
     const double u = (alpha[i] - 1.) / ULP;
@@ -394,140 +397,136 @@ static void run_alphabet(Result &R, Counters &total, const char *pred, int npts,
   }
   fam += "}";
   const bool orient = (npts == 4);
-  const uint64_t rot = N ? ((uint64_t)seed * 2654435761ull) % N : 0;
-  bool stop = false;
-  const uint64_t CH = 2048;
-  const uint64_t nchunks = (N + CH - 1) / CH;
-  uint64_t sample_at = N / 3 + 12345;
-#pragma omp parallel
+  // all multisets (non-decreasing point codes)
+  std::vector< std::array< unsigned char, 5 > > multi;
   {
-    Counters C;
-#pragma omp for schedule(dynamic, 4)
-    for (uint64_t ch = 0; ch < nchunks; ++ch) {
-      if (stop)
-        continue;
-      if (R.out_of_time()) {
-        stop = true;
-        continue;
-      }
-      for (uint64_t k = ch * CH; k < std::min(N, (ch + 1) * CH); ++k) {
-        const uint64_t idx = (k + rot) % N;
-        double p[15];
-        uint64_t t = idx;
-        for (int i = 0; i < n; ++i) {
-          p[i] = alpha[t % A];
-          t /= A;
-        }
-        int ref, ex, ad;
-        if (orient) {
-          ref = orient_sign(p);
-          ex = code_orient_exact(p);
-          ad = code_orient_adaptive(p);
-          if (naive_orient(p) != ref)
-            ++C.naive_wrong;
-        } else {
-          ref = insphere_sign(p);
-          ex = code_insphere_exact(p);
-          ad = code_insphere_adaptive(p);
-        }
-        if (idx % 7 == 0 || N < 100000) {
-          ++C.oracle_cross;
-          const int ref2 = sgn(orient ? orient_det_translated(p) : insphere_det_translated(p));
-          const int ref3 = sgn(orient ? orient_det(p) : insphere_det(p)); // unbounded integers
-          if (ref2 != ref || ref3 != ref)
-            R.violation(fmt("C17:oracle-self-check:%s", pred),
-                        fmt("the two formulations of the reference determinant differ in sign (%d vs %d) on %s",
-                            ref, ref2, pts_hex(p, n).c_str()),
-                        replay_json(pred, p, n));
-        }
-        tab_ex[idx] = (signed char)ex;
-        tab_ad[idx] = (signed char)ad;
-        C.calls += 2;
-        ++C.inputs;
-        if (distinct_points(p, npts)) {
-          ++C.nontrivial;
-          if (ref == 0)
-            ++C.ref_zero_distinct;
-        }
-        if (ref > 0)
-          ++C.ref_pos;
-        if (ref < 0)
-          ++C.ref_neg;
-        judge(R, C, orient ? "orient3d" : "insphere", fam.c_str(), p, npts, ref, ex, ad);
-        if (idx == sample_at || idx == sample_at / 2)
-          R.sample(fmt("{\"pred\": \"%s\", \"family\": \"%s\", \"points\": \"%s\", \"det_sign\": %d, "
-                       "\"exact\": %d, \"adaptive\": %d}",
-                       orient ? "orient3d" : "insphere", fam.c_str(), pts_ulp(p, n).c_str(), ref, ex, ad));
-      }
+    std::array< unsigned char, 5 > c = {0, 0, 0, 0, 0};
+    while (true) {
+      multi.push_back(c);
+      int i = npts - 1;
+      while (i >= 0 && c[i] == P - 1)
+        --i;
+      if (i < 0)
+        break;
+      ++c[i];
+      for (int j = i + 1; j < npts; ++j)
+        c[j] = c[i];
     }
-#pragma omp critical
-    total.add(C);
   }
-  if (stop) {
-    complete = false;
-    R.hit_deadline(fmt("%s %s: enumeration of %" PRIu64 " inputs not finished, permutation table check skipped",
-                       pred, fam.c_str(), N));
-    return;
-  }
-  // permutation check on the tables
-  const std::vector< Perm > perms = permutations(npts);
-  stop = false;
+  const uint64_t M = multi.size();
+  const uint64_t rot = M ? ((uint64_t)seed * 2654435761ull) % M : 0;
+  bool stop = false;
+  uint64_t expected_inputs = 1;
+  for (int i = 0; i < npts; ++i)
+    expected_inputs *= P;
+  const uint64_t sample_at = M / 3 + 12345;
+  uint64_t inputs_seen = 0;
 #pragma omp parallel
   {
     Counters C;
-#pragma omp for schedule(dynamic, 4)
-    for (uint64_t ch = 0; ch < nchunks; ++ch) {
+#pragma omp for schedule(dynamic, 64)
+    for (uint64_t km = 0; km < M; ++km) {
       if (stop)
         continue;
-      if (R.out_of_time()) {
+      if ((km & 1023) == 0 && R.out_of_time()) {
         stop = true;
         continue;
       }
-      for (uint64_t idx = ch * CH; idx < std::min(N, (ch + 1) * CH); ++idx) {
-        uint64_t code[5];
-        uint64_t t = idx;
+      const uint64_t im = (km + rot) % M;
+      std::array< unsigned char, 5 > c = multi[im];
+      auto coords = [&](const unsigned char *code, double *p) {
         for (int i = 0; i < npts; ++i) {
-          code[i] = t % P;
-          t /= P;
-        }
-        for (const Perm &q : perms) {
-          uint64_t j = 0;
-          for (int i = npts - 1; i >= 0; --i)
-            j = j * P + code[q.p[i]];
-          ++C.perm_checks;
-          for (int which = 0; which < 2; ++which) {
-            const signed char *tab = which ? tab_ad.data() : tab_ex.data();
-            if (tab[j] != q.sign * tab[idx]) {
-              ++C.mism;
-              static thread_local int nrep[2][2] = {{0, 0}, {0, 0}};
-              if (++nrep[which][q.sign < 0] > 3)
-                continue;
-              double p[15], pp[15];
-              uint64_t t2 = idx;
-              for (int i = 0; i < n; ++i) {
-                p[i] = alpha[t2 % A];
-                t2 /= A;
-              }
-              for (int i = 0; i < npts; ++i)
-                for (int c = 0; c < 3; ++c)
-                  pp[3 * i + c] = p[3 * q.p[i] + c];
-              R.violation(fmt("C17:%s_%s:permutation:%s:%s", pred, which ? "adaptive" : "exact",
-                              fam.c_str(), q.sign < 0 ? "odd" : "even"),
-                          fmt("%s_%s = %d on %s but %d on the %s permutation %s", pred,
-                              which ? "adaptive" : "exact", (int)tab[idx], pts_ulp(p, n).c_str(),
-                              (int)tab[j], q.sign < 0 ? "odd" : "even", pts_ulp(pp, n).c_str()),
-                          replay_json(pred, p, n));
-            }
+          int t = code[i];
+          for (int k = 0; k < 3; ++k) {
+            p[3 * i + k] = alpha[t % A];
+            t /= A;
           }
         }
+      };
+      bool distinct = true;
+      for (int i = 0; i + 1 < npts; ++i)
+        if (c[i] == c[i + 1])
+          distinct = false;
+      double p0[15];
+      coords(c.data(), p0);
+      const int ref0 = orient ? orient_sign(p0) : insphere_sign(p0);
+      // oracle re-evaluated on the reversed arrangement (parity of the reversal: npts(npts-1)/2 swaps)
+      {
+        unsigned char r[5];
+        for (int i = 0; i < npts; ++i)
+          r[i] = c[npts - 1 - i];
+        double pr[15];
+        coords(r, pr);
+        const int par = ((npts * (npts - 1) / 2) & 1) ? -1 : 1;
+        const int refr = orient ? orient_sign(pr) : insphere_sign(pr);
+        ++C.oracle_cross;
+        bool bad = (refr != par * ref0);
+        if (im % 7 == 0) {
+          const int ref2 = sgn(orient ? orient_det_translated(p0) : insphere_det_translated(p0));
+          const int ref3 = sgn(orient ? orient_det(p0) : insphere_det(p0)); // unbounded integers
+          ++C.oracle_cross;
+          bad = bad || ref2 != ref0 || ref3 != ref0;
+        }
+        if (bad)
+          R.violation(fmt("C17:oracle-self-check:%s", pred),
+                      fmt("the reference determinant is inconsistent between its formulations / arrangements on %s",
+                          pts_hex(p0, n).c_str()),
+                      replay_json(pred, p0, n));
       }
+      if (!distinct && ref0 != 0)
+        R.violation(fmt("C17:oracle-self-check:%s", pred),
+                    fmt("non-zero reference determinant for repeated points %s", pts_hex(p0, n).c_str()),
+                    replay_json(pred, p0, n));
+      // every distinct arrangement of the multiset = one ordered input
+      do {
+        int want = 0;
+        if (distinct) {
+          int inv = 0;
+          for (int i = 0; i < npts; ++i)
+            for (int j = i + 1; j < npts; ++j)
+              if (c[i] > c[j])
+                ++inv;
+          want = (inv & 1) ? -ref0 : ref0;
+        }
+        double p[15];
+        coords(c.data(), p);
+        const int ex = orient ? code_orient_exact(p) : code_insphere_exact(p);
+        const int ad = orient ? code_orient_adaptive(p) : code_insphere_adaptive(p);
+        C.calls += 2;
+        ++C.inputs;
+        ++C.perm_checks;
+        if (distinct) {
+          ++C.nontrivial;
+          if (want == 0)
+            ++C.ref_zero_distinct;
+        }
+        if (want > 0)
+          ++C.ref_pos;
+        if (want < 0)
+          ++C.ref_neg;
+        if (orient && naive_orient(p) != want)
+          ++C.naive_wrong;
+        if (ex != want || ad != want)
+          judge(R, C, pred, fam.c_str(), p, npts, want, ex, ad);
+      } while (std::next_permutation(c.begin(), c.begin() + npts));
+      if (im == sample_at || im == sample_at / 2)
+        R.sample(fmt("{\"pred\": \"%s\", \"family\": \"%s\", \"points(sorted arrangement)\": \"%s\", "
+                     "\"det_sign\": %d}",
+                     pred, fam.c_str(), pts_ulp(p0, n).c_str(), ref0));
     }
 #pragma omp critical
-    total.add(C);
+    {
+      total.add(C);
+      inputs_seen += C.inputs;
+    }
   }
   if (stop) {
     complete = false;
-    R.hit_deadline(fmt("%s %s: permutation table check not finished", pred, fam.c_str()));
+    R.hit_deadline(fmt("%s %s: enumeration of %" PRIu64 " inputs not finished", pred, fam.c_str(), expected_inputs));
+  } else if (inputs_seen != expected_inputs) {
+    R.violation("C17:harness:enumeration-count",
+                fmt("%s %s: %" PRIu64 " ordered inputs visited, %" PRIu64 " expected", pred, fam.c_str(), inputs_seen,
+                    expected_inputs));
   }
 }
 
@@ -874,6 +873,9 @@ int main(int argc, char **argv) {
   // alphabets of DESIGN.md C17 (ulp-level: 1 and 1+ulp, 1.5, the largest value 2-ulp)
   const std::vector< double > alpha4 = {1., 1. + ULP, 1.5, 2. - ULP};
   const std::vector< double > alpha4b = {1., 1.5, 1.5 + ULP, 2. - ULP};
+  const std::vector< double > alpha5 = {1., 1. + ULP, 1.5, 1.5 + ULP, 2. - ULP};
+  const std::vector< double > alpha3d = {1., 1.5, 1.5 + ULP};
+  const std::vector< double > alpha3e = {1. + ULP, 1.5, 2. - ULP};
   const std::vector< double > alpha3a = {1., 1. + ULP, 1.5};
   const std::vector< double > alpha3b = {1., 1. + ULP, 2. - ULP};
   const std::vector< double > alpha3c = {1., 1.5, 2. - ULP};
@@ -886,8 +888,10 @@ int main(int argc, char **argv) {
   if (only.empty() || only == "orient") {
     // 4^12; contains the 3^12 alphabets {1,1+u,1.5}, {1,1+u,2-u}, {1,1.5,2-u} of the quick plan
     run_alphabet(R, Co, "orient3d", 4, alpha4, A.seed, complete);
-    if (th)
+    if (th) {
       run_alphabet(R, Co, "orient3d", 4, alpha4b, A.seed, complete); // 4^12, ulp pair at 1.5
+      run_alphabet(R, Co, "orient3d", 4, alpha5, A.seed, complete);  // 5^12 = 244 140 625
+    }
   }
   R.set("wall_orient_alphabet_s", R.elapsed() - t0);
   t0 = R.elapsed();
@@ -899,6 +903,8 @@ int main(int argc, char **argv) {
     if (th) {
       run_alphabet(R, Ci, "insphere", 5, alpha3a, A.seed, complete);
       run_alphabet(R, Ci, "insphere", 5, alpha3b, A.seed, complete);
+      run_alphabet(R, Ci, "insphere", 5, alpha3d, A.seed, complete);
+      run_alphabet(R, Ci, "insphere", 5, alpha3e, A.seed, complete);
     }
   }
   R.set("wall_insphere_alphabet_s", R.elapsed() - t0);
@@ -964,7 +970,7 @@ int main(int argc, char **argv) {
   T.add(Cfi);
   R.evaluations = T.calls;
   R.nontrivial = T.nontrivial;
-  R.set("inputs_compared_with_oracle", (double)T.inputs);
+  R.set("ordered_inputs_compared_with_the_exact_sign", (double)T.inputs);
   R.set("orient_alphabet_inputs", (double)Co.inputs);
   R.set("orient_alphabet_distinct_points", (double)Co.nontrivial);
   R.set("orient_alphabet_det_zero_with_distinct_points", (double)Co.ref_zero_distinct);
@@ -988,13 +994,14 @@ int main(int argc, char **argv) {
   R.set("oracle_fixed_width_overflows_redone_unbounded", (double)g_fixed_overflows);
   R.set("omp_threads", (double)omp_get_max_threads());
   R.rule = "evaluations = calls of the four real predicate functions; every input (12 or 15 coordinates) is "
-           "compared with the sign of the exact determinant in unbounded integers (cpp_int, untranslated "
-           "homogeneous 4x4 / lifted 5x5 determinant expanded along the first row); adaptive must equal "
-           "exact; all 24/120 point permutations must flip (odd) or keep (even) the result. Alphabet "
-           "families: every assignment of the alphabet to all coordinates (closed under permutations, so "
-           "the permuted call is the stored result of the permuted input); corner families: every 4/5-subset "
-           "of cube corners / octahedron vertices, every coordinate moved by every k ulp, every permutation "
-           "called directly. Non-trivial = inputs whose points are pairwise distinct.";
+           "compared with the sign of the exact integer determinant (untranslated homogeneous 4x4 / lifted 5x5 "
+           "determinant expanded along the first row; checked fixed-width integers, unbounded cpp_int on overflow "
+           "and on every 7th case); adaptive must equal exact; all 24/120 point permutations must flip (odd) or "
+           "keep (even) the result. Alphabet families: every assignment of the alphabet to all coordinates, "
+           "visited as multiset of points x all its arrangements: determinant once per multiset, every "
+           "arrangement (= one ordered input) called and compared with sign(arrangement) x sign(det); corner "
+           "families: every 4/5-subset of cube corners / octahedron vertices, every coordinate moved by every k "
+           "ulp, every permutation called directly. Non-trivial = inputs whose points are pairwise distinct.";
   R.assumptions.push_back("coordinates in the normalised range [1,2) as the predicates require (moves of a "
                           "corner coordinate that leave the range are skipped and counted)");
   R.assumptions.push_back("the property is decided on the finite alphabets listed; nothing is claimed for "
